@@ -13,6 +13,7 @@ import (
 	"os"
 	"os/exec"
 	"path/filepath"
+	"strings"
 
 	gogoproto "github.com/gogo/protobuf/proto"
 	_ "github.com/gogo/protobuf/types"
@@ -138,6 +139,42 @@ func main() {
 			fatal(err)
 		}
 	}
+	if *reqdir != "" {
+		// requests that name several files to generate in one plug-in invocation
+		for _, mt := range []struct {
+			name   string
+			parts  []int
+			params string
+		}{
+			{"multi-googlev2", []int{4, 5}, "apiversion=v2,paths=source_relative"},
+			{"multi-googlev2-permessage", []int{5, 8}, "apiversion=v2,filepermessage=true,paths=source_relative"},
+			{"multi-gogo", []int{0, 1}, "paths=source_relative" + gogoWKT + ",specialname=Size"},
+		} {
+			merged := &pluginpb.CodeGeneratorRequest{Parameter: proto.String(mt.params), CompilerVersion: &pluginpb.Version{Major: proto.Int32(3), Minor: proto.Int32(21), Patch: proto.Int32(12)}}
+			seen := map[string]bool{}
+			var dirs []string
+			for _, i := range mt.parts {
+				r, err := request(targets[i], mt.params)
+				if err != nil {
+					fatal(err)
+				}
+				merged.FileToGenerate = append(merged.FileToGenerate, r.FileToGenerate...)
+				for _, f := range r.ProtoFile {
+					if !seen[f.GetName()] {
+						seen[f.GetName()] = true
+						merged.ProtoFile = append(merged.ProtoFile, f)
+					}
+				}
+				dirs = append(dirs, r.FileToGenerate[0]+"="+targets[i].dir)
+			}
+			raw, err := proto.MarshalOptions{Deterministic: true}.Marshal(merged)
+			if err != nil {
+				fatal(err)
+			}
+			_ = os.WriteFile(filepath.Join(*reqdir, mt.name+".req"), raw, 0o644)
+			_ = os.WriteFile(filepath.Join(*reqdir, mt.name+".dir"), []byte(strings.Join(dirs, "\n")), 0o644)
+		}
+	}
 	total := 0
 	for _, t := range targets {
 		params := t.params
@@ -156,7 +193,7 @@ func main() {
 			if err := os.WriteFile(filepath.Join(*reqdir, t.name+".req"), raw, 0o644); err != nil {
 				fatal(err)
 			}
-			_ = os.WriteFile(filepath.Join(*reqdir, t.name+".dir"), []byte(t.dir), 0o644)
+			_ = os.WriteFile(filepath.Join(*reqdir, t.name+".dir"), []byte(req.FileToGenerate[0]+"="+t.dir), 0o644)
 		}
 		if *noWrite {
 			continue
